@@ -6,7 +6,8 @@ Theorems about DhtVerif/Model/Security.lean for every IPv4/IPv6 address
 -/
 import DhtVerif.Model.Security
 import DhtVerif.Lemmas.C17
-import DhtVerif.Props.SourceTrees2
+import DhtVerif.Props.ST2Local
+import DhtVerif.Props.ST2Filter
 namespace Dht
 open C17
 
